@@ -70,7 +70,8 @@ func c13Decl(k int) *decl.Decl {
 	noini := o("Dd", "dd", "", "")
 	noini.NoIni = "yes"
 	top.Opts = append(top.Opts, noini)
-	top.Groups = []*decl.Group{{Field: "Grp", Name: "Grp", Namespace: "ns", Opts: []*decl.Opt{o("Aa", "aa", "", ""), o("Ee", "ee", "e", "")},
+	top.Groups = []*decl.Group{{Field: "Grp", Name: "Grp", Namespace: "ns", Opts: []*decl.Opt{o("Aa", "aa", "", ""), o("Ee", "ee", "e", ""),
+		o("Nn", "nn", "", "Ll")}, // its ini-name is the field name of an option of the parser's own group: before any header, the ini-name wins
 		// a namespaced group inside the namespaced group: its option's long name carries both prefixes whichever section addresses it
 		Groups: []*decl.Group{{Field: "Inner", Name: "Inner", Namespace: "in", Opts: []*decl.Opt{o("Jj", "jj", "", "")}}}}}
 	sub := &decl.Cmd{Field: "Sub", Name: "sub", Opts: []*decl.Opt{o("Aa", "zz", "", ""), o("Ff", "ff", "", "")}}
@@ -86,7 +87,7 @@ func c13Decl(k int) *decl.Decl {
 }
 
 var c13Sections = []string{"", "Application Options", "application OPTIONS", "Grp", "GRP", "cmd", "cmd.Sub Group", "cmd.sub group", "cmd.sub", "Cmd", "cmd.nope", "sub", "Sub Group", "MixedCase", "mixedcase", "MixedCase.Mixed Group", "MixedCase.mixed group", "Inner", "cmd.", ".cmd"}
-var c13Names = []string{"Aa", "aa", "AA", "aA", "Bb", "bb", "BB", "Cc", "cc", "a", "b", "c", "A", "s", "Ss", "longonly", "Ll", "Dd", "dd", "ns.aa", "ns.ee", "ee", "e", "Ee", "Gg", "zz", "Ff", "ff", "Hh", "hh", "hname", "HNAME", "nope", "Xx", "Yy", "K", "m", "kk", "xx", "Ii", "mx", "ns.in.jj", "in.jj", "jj", "Jj"}
+var c13Names = []string{"Aa", "aa", "AA", "aA", "Bb", "bb", "BB", "Cc", "cc", "a", "b", "c", "A", "s", "Ss", "longonly", "Ll", "Dd", "dd", "ns.aa", "ns.ee", "ee", "e", "Ee", "Gg", "zz", "Ff", "ff", "Hh", "hh", "hname", "HNAME", "nope", "Xx", "Yy", "K", "m", "kk", "xx", "Ii", "mx", "ns.in.jj", "in.jj", "jj", "Jj", "Nn", "ll"}
 
 func init() {
 	body := func(c *explore.Ctx) {
@@ -99,6 +100,7 @@ func init() {
 		if si == 0 && ni == 0 && reps == 1 && !asDefaults && !earlier {
 			c13LateGroup(c, k)
 			c13Renamed(c, k)
+			c13TwoSections(c, k)
 		}
 		kind := c13Kinds[k]
 		d := c13Decl(k)
@@ -278,7 +280,7 @@ func init() {
 		ShardDepth: 2,
 		Body:       body,
 		Rule: "declaration whose names cross (A's long name = B's field name = C's ini-name up to case; the same field name in the parser, a namespaced group, a command and a sub-subcommand; short-only, long-only and no-ini options; an ini-name inside a command's subgroup) " +
-			"x 17 option types / value notations (incl. map values containing :\" in the middle, a 70000-byte value) (incl. map values written in INI quoting, some containing colons, against their unquoted command-line equivalent) x 20 section spellings (incl. a command path with an empty component) (incl. a namespaced group nested in a namespaced group, addressed by its own section) (incl. a command whose name has upper-case letters: command names are matched exactly, group descriptions case-insensitively) (global, group description in three casings, command, command.group in two casings, sub-subcommand path, wrong casings and unknown paths) x 45 entry names (every naming of every option in several casings, namespaced long names, unknown) " +
+			"x 17 option types / value notations (incl. map values containing :\" in the middle, a 70000-byte value) (incl. map values written in INI quoting, some containing colons, against their unquoted command-line equivalent) x 20 section spellings (incl. a command path with an empty component) (incl. a namespaced group nested in a namespaced group, addressed by its own section) (incl. a command whose name has upper-case letters: command names are matched exactly, group descriptions case-insensitively) (global, group description in three casings, command, command.group in two casings, sub-subcommand path, wrong casings and unknown paths) x 47 entry names (every naming of every option in several casings, namespaced long names, unknown) " +
 			"x 1..3 repeated entries (also spread over two sections that reach the same option) x normal / as-defaults mode x {fresh parser, parser that has already read a file naming the same option by another of its names (a later read replaces, like a later command line)}; oracle: (a) the documented priority ini-name > field > namespaced long > short selects the option, unknown names/sections are errors, (b) differential: a fresh parser given the equivalent --name=value flags must end in the same option struct; " +
 			"distinct = distinct (type, section, name, repetitions, error class, options touched)",
 		Assumptions:  []string{"values without edge blanks", "a flag entry 'name = false' has no command-line equivalent and is not used"},
@@ -363,5 +365,44 @@ func c13Renamed(c *explore.Ctx, k int) {
 	}
 	if errOld == nil {
 		c.Fail("section-by-the-former-name-of-a-group-accepted", "[Grp] after the group was renamed")
+	}
+}
+
+// c13TwoSections: one key spelling in two sections of one file that denote different options: each entry goes to the
+// option its own section reaches.
+func c13TwoSections(c *explore.Ctx, k int) {
+	d := c13Decl(k)
+	kind := c13Kinds[k]
+	if kind.T.IsFlag() || kind.T.IsMap() || kind.Cli != nil {
+		return
+	}
+	b := d.BuildTags()
+	if b.Err != nil {
+		return
+	}
+	v1, v2 := kind.Vals[0], kind.Vals[1]
+	text := fmt.Sprintf("[cmd]\nAa = %s\n[MixedCase]\nAa = %s\n", v1, v2)
+	err := flags.NewIniParser(b.Parser).Parse(strings.NewReader(text))
+	c.Hit("same-key-in-two-sections")
+	if err != nil {
+		c.Fail("valid-entry-rejected|two-sections", err.Error())
+		return
+	}
+	b2 := d.BuildTags()
+	rr1 := runParser(b2, &ref.Config{D: d}, []string{"cmd", "--aa=" + v1}, runOpts{})
+	b3 := d.BuildTags()
+	rr2 := runParser(b3, &ref.Config{D: d}, []string{"MixedCase", "--mx=" + v2}, runOpts{})
+	if rr1.Err != nil || rr2.Err != nil {
+		return
+	}
+	for _, o := range d.EveryOpt() {
+		want := b2.Vals[o]
+		if o.Owner != nil && o.Owner.Name == "MixedCase" {
+			want = b3.Vals[o]
+		}
+		if !ref.SameValue(want, b.Vals[o]) {
+			c.Fail("differs-from-flag|same-key-in-two-sections", map[string]interface{}{"option": o.ID, "want": ref.Show(want), "got": ref.Show(b.Vals[o]), "ini": text})
+			return
+		}
 	}
 }
